@@ -14,6 +14,7 @@ package lexer
 
 import (
 	"errors"
+	"strconv"
 	"strings"
 
 	"github.com/paulsonkoly/calc/types/token"
@@ -71,6 +72,18 @@ func (l *Lexer) Next() bool {
 			word := l.input[l.from:l.to]
 			if str.typ == token.StringLit {
 				word = strings.ReplaceAll(word, "\\n", "\n")
+			}
+			if str.typ == token.IntLit {
+				if _, err := strconv.Atoi(word); err != nil {
+					l.Err = errors.New("Lexer: integer literal out of range")
+					return true
+				}
+			}
+			if str.typ == token.FloatLit {
+				if _, err := strconv.ParseFloat(word, 64); err != nil {
+					l.Err = errors.New("Lexer: float literal out of range")
+					return true
+				}
 			}
 			l.Token = token.WithFromTo(str.typ, word, l.from, l.to)
 			l.state = str.next
